@@ -49,7 +49,8 @@ Definition transaction (E : env) (tx : txn) : M unit :=
         m_checkdup (e_P E) (e_rnd E) (t_txid tx) (t_sender tx) (t_lease tx) ;;;
         acctdata <- m_lookup (t_sender tx) ;;
         guard (t_authorizer tx =? (if a_auth acctdata =? 0 then t_sender tx else a_auth acctdata)) E_AUTH) ;;;
-  _ <- apply_transaction E tx ;;
+  ctr <- m_counter ;;
+  _ <- apply_transaction E tx ctr ;;
   when (e_validate E || e_generate E) (check_min_balance E) ;;;
   m_addtx (t_txid tx) (t_lv tx) (t_sender tx) (t_lease tx).
 
